@@ -122,6 +122,8 @@ GENERIC_EQUIV = [
     {"name": "first call-valued argument of every statement-level call given a name (_xtN = g(x); h(_xtN))", "kind": "equiv", "transform": "extract"},
     {"name": "statements after an `if` whose body ends in return/raise/continue/break moved into its else", "kind": "equiv", "transform": "nestelse"},
     {"name": "positional arguments of self.m(...) and of the package's own functions written as keyword arguments", "kind": "equiv", "transform": "kwargs"},
+    {"name": "every `if a and b:` without else written as nested ifs", "kind": "equiv", "transform": "splitand"},
+    {"name": "nested ifs without else merged into one conjunction", "kind": "equiv", "transform": "mergeif"},
 ]
 
 
